@@ -921,6 +921,26 @@ class Executor:
                 items[proj[0][1]] = val
                 loc[place.local] = Tup(items)
                 return
+        if len(proj) > 1 and all(pr[0] == "field" for pr in proj):
+            # nested field write into a concrete struct / tuple value: functional update along the path
+            def upd(cur, path):
+                if not path:
+                    return val
+                k = path[0][1]
+                if isinstance(cur, Tup):
+                    items = list(cur.items)
+                    items[k] = upd(items[k], path[1:])
+                    return Tup(items)
+                if isinstance(cur, Adt) and k < len(cur.fields):
+                    fields = list(cur.fields)
+                    old = fields[k]
+                    inner = old[1] if isinstance(old, tuple) else old
+                    new = upd(inner, path[1:])
+                    fields[k] = (old[0], new) if isinstance(old, tuple) else new
+                    return Adt(cur.ty, cur.variant, fields)
+                raise Unsupported(f"write to projected place {place}")
+            loc[place.local] = upd(loc.get(place.local), proj)
+            return
         raise Unsupported(f"write to projected place {place}")
 
     def _write(self, fn, frame, place, val, st, subst):
@@ -1195,6 +1215,11 @@ class Executor:
                 return S("bool", "true" if v else "false")
             if op in ("AddWithOverflow", "SubWithOverflow", "Add", "Sub", "AddUnchecked", "SubUnchecked"):
                 v = lx + ly if op.startswith("Add") else lx - ly
+                if e.imin() <= v <= e.imax() and (a.signed or v >= 0):
+                    res = S("int", e.int_const(v), a.bits, a.signed)
+                    return Tup([res, S("bool", "false")]) if op.endswith("WithOverflow") else res
+            if op in ("MulWithOverflow", "Mul", "MulUnchecked"):
+                v = lx * ly
                 if e.imin() <= v <= e.imax() and (a.signed or v >= 0):
                     res = S("int", e.int_const(v), a.bits, a.signed)
                     return Tup([res, S("bool", "false")]) if op.endswith("WithOverflow") else res
